@@ -79,6 +79,14 @@ type State struct {
 	invObjs   []invObj       // pointers whose type invariant was assumed on this path
 	iterHead  map[*Loop]*State // snapshot at the loop head of the current iteration
 	loopEntry map[*Loop]*State // snapshot at the first arrival at the loop (before havoc)
+	counters  map[*Loop][]counterBound // inferred bounds of monotone loop counters (instr.go)
+}
+
+// counterBound: a loop counter that only moves one way keeps to one side of its entry value.
+type counterBound struct {
+	cell  *ssa.Alloc
+	up    bool
+	entry *Term
 }
 
 type invObj struct {
@@ -105,6 +113,12 @@ func (s *State) clone() *State {
 		n.clos = map[string]Val{}
 		for k, v := range s.clos {
 			n.clos[k] = v
+		}
+	}
+	if s.counters != nil {
+		n.counters = map[*Loop][]counterBound{}
+		for k, v := range s.counters {
+			n.counters[k] = v
 		}
 	}
 	if s.loopHeap != nil {
